@@ -122,3 +122,22 @@ Definition complete_b (dat : list N) (outs : list (list N * err)) : bool :=
   list_eqb N.eqb (delivered outs) dat &&
   forallb (fun o => negb (is_fail (snd o))) outs &&
   existsb (fun o => is_eof (snd o)) outs.
+
+(* ---- the retry budget, said on the script alone ------------------------------ *)
+(* no more than [b] failing body reads in a row ([cur] = length of the run the
+   script is in) *)
+Fixpoint runs_le (b cur : nat) (evs : list rd_ev) : bool :=
+  match evs with
+  | [] => true
+  | ev :: t => if rfail ev then Nat.ltb cur b && runs_le b (S cur) t else runs_le b 0 t
+  end.
+
+(* every failing body read comes while fewer than [len] bytes can have been
+   handed over ([acc] bounds them: a body read that does not fail hands over at
+   most max 1 rk bytes): the resumption asks for an offset inside the body *)
+Fixpoint early_faults (len acc : nat) (evs : list rd_ev) : bool :=
+  match evs with
+  | [] => true
+  | ev :: t => if rfail ev then Nat.ltb acc len && early_faults len acc t
+               else early_faults len (acc + Nat.max 1 (rk ev)) t
+  end.
